@@ -262,6 +262,9 @@ class C16(Check):
                 if rng.random() < 0.3:
                     case["other"] = self.gen_spec(rng)
                     self.note("build_then_other_instance_then_inspect")
+                if rng.random() < 0.25:
+                    case["copy"] = rng.choice([1, 1, 2])
+                    self.note("inspect_deep_copy")
             else:
                 positive = rng.random() < 0.85
                 spec = self.gen_spec(rng, positive=positive)
@@ -272,6 +275,9 @@ class C16(Check):
                          for _ in range(total)]
                 case = {"kind": "solved", "spec": spec, "picks": picks, "rb": 4,
                         "removes": self.gen_removes(rng, total + 2) if rng.random() < 0.3 else []}
+                if rng.random() < 0.3:
+                    case["earlier"] = [[rng.randrange(1000), rng.randrange(1000), 0] for _ in range(total)]
+                    self.note("solved_after_an_earlier_solved_graph_of_the_same_instance")
             cases.append(case)
             st = common.instance_stats(case["spec"])
             self.note("cases_" + case["kind"])
@@ -311,6 +317,13 @@ class C16(Check):
                         keep.append(getattr(graphs, name)(other))
                     except Exception:  # pylint: disable=broad-except
                         pass
+            if case.get("copy"):
+                # what a GraphUpdater / environment hands out from its first reset on: a deep copy
+                import copy as _copy
+
+                built = [_copy.deepcopy(g) if g is not None else None for g in built]
+                if case["copy"] == 2:
+                    built = [_copy.deepcopy(g) if g is not None else None for g in built]
             outs = []
             for g in built:
                 try:
@@ -324,6 +337,12 @@ class C16(Check):
                 rem = [0]
             return common.norm([outs, rem])
         if case["kind"] == "solved":
+            if case.get("earlier"):
+                # another schedule of the SAME instance object was turned into a solved graph before (the graph
+                # of a schedule is a function of that schedule alone)
+                from job_shop_lib.graphs import build_solved_disjunctive_graph as _bsdg
+
+                earlier_graph = _bsdg(make_schedule(instance, case["earlier"])[0])
             schedule, built = make_schedule(instance, case["picks"])
         else:
             from job_shop_lib.constraint_programming import ORToolsSolver
@@ -510,8 +529,14 @@ class C16(Check):
             if c["kind"] == "solved":
                 total = sum(len(j) for j in c["spec"])
                 c["picks"] = (c["picks"] + [[0, 0, 0]] * total)[:total]
+                if c.get("earlier"):
+                    c["earlier"] = (c["earlier"] + [[0, 0, 0]] * total)[:total]
             return c
 
+        if case.get("copy"):
+            yield {k: v for k, v in case.items() if k != "copy"}
+        if case.get("earlier"):
+            yield {k: v for k, v in case.items() if k != "earlier"}
         if case.get("other"):
             yield {k: v for k, v in case.items() if k != "other"}
             if len(case["other"]) > 1:
